@@ -45,6 +45,10 @@ def sidArgs (sid : Nat) (l : Log) : List Val := (l.filter (·.stage == sid)).map
 @[simp] theorem sidArgs_self (sid : Nat) (v : Val) : sidArgs sid [⟨sid, v⟩] = [v] := by
   simp [sidArgs]
 
+@[simp] theorem sidArgs_cons_self (sid : Nat) (v : Val) (l : Log) :
+    sidArgs sid (⟨sid, v⟩ :: l) = v :: sidArgs sid l := by
+  simp [sidArgs]
+
 theorem sidArgs_fresh (sid : Nat) (l : Log) (h : ∀ c ∈ l, c.stage ≠ sid) : sidArgs sid l = [] := by
   simp only [sidArgs, List.map_eq_nil_iff, List.filter_eq_nil_iff]
   intro c hc
@@ -153,5 +157,678 @@ theorem erase_batch_gen (n : Nat) (dl : Bool) (cs : List (Log × Val)) (cur : Li
       cases e with
       | none => simpa [batchT, chunkAux, h] using h1
       | some er => simpa [batchT, chunkAux, h] using h1
+
+/-! ### conservation of the log and no look-ahead: `map` -/
+
+@[simp] theorem fullLog_nil (tl : Log) (e : Option Err) : (TStream.mk [] tl e).fullLog = tl := by
+  simp [TStream.fullLog]
+
+@[simp] theorem flatten_map_fst_nil (xs : List Val) :
+    ((xs.map (fun y => (([] : Log), y))).map (·.1)).flatten = [] := by
+  induction xs with
+  | nil => rfl
+  | cons x xs ih => simp
+
+theorem fullLog_congr (t : TStream) (e : Option Err) :
+    (TStream.mk t.chunks t.tail e).fullLog = t.fullLog := rfl
+
+@[simp] theorem fullLog_cons (c : Log × Val) (cs : List (Log × Val)) (tl : Log) (e : Option Err) :
+    (TStream.mk (c :: cs) tl e).fullLog = c.1 ++ (TStream.mk cs tl e).fullLog := by
+  simp [TStream.fullLog]
+
+theorem fresh_cons {sid : Nat} {lg : Log} {v : Val} {rest : List (Log × Val)} {tl : Log}
+    (h : ∀ c ∈ ((((lg, v) :: rest).map (·.1)).flatten ++ tl), c.stage ≠ sid) :
+    (∀ c ∈ lg, c.stage ≠ sid) ∧ (∀ c ∈ ((rest.map (·.1)).flatten ++ tl), c.stage ≠ sid) := by
+  constructor
+  · intro c hc; apply h; simp [hc]
+  · intro c hc; apply h
+    simp only [List.map_cons, List.flatten_cons, List.append_assoc, List.mem_append] at hc ⊢
+    exact Or.inr hc
+
+theorem fresh_tail {sid : Nat} {cs : List (Log × Val)} {tl : Log}
+    (h : ∀ c ∈ ((cs.map (·.1)).flatten ++ tl), c.stage ≠ sid) : ∀ c ∈ tl, c.stage ≠ sid := by
+  intro c hc; apply h; simp [hc]
+
+/-- exact form: the function has been applied to the inputs up to and including the one after the last result
+    (the one that raised, if any) -/
+theorem log_map_exact (ρ : Env) (sid : Nat) (f : FnSym) (cs : List (Log × Val)) (tl : Log) (e : Option Err)
+    (hf : ∀ c ∈ ((cs.map (·.1)).flatten ++ tl), c.stage ≠ sid) :
+    sidArgs sid (mapT ρ sid f cs tl e).fullLog = (cs.map (·.2)).take ((mapT ρ sid f cs tl e).chunks.length + 1) := by
+  induction cs with
+  | nil => simpa [mapT] using sidArgs_fresh sid tl (fresh_tail hf)
+  | cons c rest ih =>
+    obtain ⟨lg, v⟩ := c
+    obtain ⟨h1, h2⟩ := fresh_cons hf
+    simp only [mapT]
+    cases h : ρ.fn f v with
+    | ok w =>
+      simp [sidArgs_fresh sid lg h1, fullLog_congr, ih h2]
+    | error er => simp [sidArgs_fresh sid lg h1]
+
+theorem map_chunks_length_le (ρ : Env) (sid : Nat) (f : FnSym) (cs : List (Log × Val)) (tl : Log) (e : Option Err) :
+    (mapT ρ sid f cs tl e).chunks.length ≤ cs.length := by
+  induction cs with
+  | nil => simp [mapT]
+  | cons c rest ih =>
+    obtain ⟨lg, v⟩ := c
+    simp only [mapT]
+    cases h : ρ.fn f v <;> simp [ih]
+
+theorem map_err_none (ρ : Env) (sid : Nat) (f : FnSym) (cs : List (Log × Val)) (tl : Log) (e : Option Err)
+    (h : (mapT ρ sid f cs tl e).err = none) : (mapT ρ sid f cs tl e).chunks.length = cs.length := by
+  induction cs with
+  | nil => simp [mapT]
+  | cons c rest ih =>
+    obtain ⟨lg, v⟩ := c
+    simp only [mapT] at h ⊢
+    cases h' : ρ.fn f v with
+    | ok w => rw [h'] at h; simp at h ⊢; exact ih h
+    | error er => rw [h'] at h; simp at h
+
+/-- the calls of the other stages pass through unchanged, up to where the stage stopped -/
+theorem log_map_others (ρ : Env) (sid : Nat) (f : FnSym) (cs : List (Log × Val)) (tl : Log) (e : Option Err) :
+    (mapT ρ sid f cs tl e).fullLog.filter (·.stage != sid) <+:
+      ((cs.map (·.1)).flatten ++ tl).filter (·.stage != sid) := by
+  induction cs with
+  | nil => simp [mapT]
+  | cons c rest ih =>
+    obtain ⟨lg, v⟩ := c
+    simp only [mapT]
+    cases h : ρ.fn f v with
+    | ok w =>
+      simp only [TStream.fullLog] at ih
+      simp only [TStream.fullLog, List.map_cons, List.flatten_cons, List.append_assoc, List.filter_append]
+      have : List.filter (fun x => x.stage != sid) [(⟨sid, v⟩ : Call)] = [] := by simp
+      rw [this, List.nil_append, List.prefix_append_right_inj]
+      simpa [List.filter_append] using ih
+    | error er =>
+      simp only [fullLog_nil, List.map_cons, List.flatten_cons, List.append_assoc, List.filter_append]
+      have : List.filter (fun x => x.stage != sid) [(⟨sid, v⟩ : Call)] = [] := by simp
+      rw [this, List.append_nil]
+      exact List.prefix_append _ _
+
+theorem log_map_others_eq (ρ : Env) (sid : Nat) (f : FnSym) (cs : List (Log × Val)) (tl : Log) (e : Option Err)
+    (he : (mapT ρ sid f cs tl e).err = none) :
+    (mapT ρ sid f cs tl e).fullLog.filter (·.stage != sid) =
+      ((cs.map (·.1)).flatten ++ tl).filter (·.stage != sid) := by
+  induction cs with
+  | nil => simp [mapT]
+  | cons c rest ih =>
+    obtain ⟨lg, v⟩ := c
+    simp only [mapT] at he ⊢
+    cases h : ρ.fn f v with
+    | ok w =>
+      rw [h] at he
+      have := ih he
+      simp only [TStream.fullLog] at this
+      simp only [TStream.fullLog, List.map_cons, List.flatten_cons, List.append_assoc, List.filter_append]
+      have h0 : List.filter (fun x => x.stage != sid) [(⟨sid, v⟩ : Call)] = [] := by simp
+      rw [h0, List.nil_append]
+      simpa [List.filter_append] using this
+    | error er => rw [h] at he; simp at he
+
+theorem no_lookahead_map (ρ : Env) (sid : Nat) (f : FnSym) (cs : List (Log × Val)) (tl : Log) (e : Option Err)
+    (hf : ∀ c ∈ ((cs.map (·.1)).flatten ++ tl), c.stage ≠ sid) (k : Nat) :
+    sidArgs sid ((mapT ρ sid f cs tl e).logAfter k) =
+      (cs.map (·.2)).take (min k (mapT ρ sid f cs tl e).chunks.length) := by
+  induction cs generalizing k with
+  | nil => simp [mapT]
+  | cons c rest ih =>
+    obtain ⟨lg, v⟩ := c
+    obtain ⟨h1, h2⟩ := fresh_cons hf
+    simp only [mapT]
+    cases h : ρ.fn f v with
+    | ok w =>
+      cases k with
+      | zero => simp
+      | succ k =>
+        simp [sidArgs_fresh sid lg h1, logAfter_congr, ih h2 k, Nat.succ_min_succ]
+    | error er => simp
+
+/-! ### conservation of the log and no look-ahead: `filter` -/
+
+theorem sidArgs_prefix (sid : Nat) {a b : Log} (h : a <+: b) : sidArgs sid a <+: sidArgs sid b :=
+  (h.filter _).map _
+
+theorem logAfter_prefix_fullLog (t : TStream) (k : Nat) : t.logAfter k <+: t.fullLog := by
+  unfold TStream.logAfter TStream.fullLog
+  obtain ⟨r, hr⟩ := List.take_prefix k t.chunks
+  conv => rhs; rw [← hr]
+  simp only [List.map_append, List.flatten_append, List.append_assoc]
+  exact List.prefix_append _ _
+
+/-- the predicate accepted `v` (returned `True`) -/
+def accepted (ρ : Env) (f : PredSym) (v : Val) : Bool :=
+  match ρ.pred f v with
+  | .ok true => true
+  | _ => false
+
+theorem log_filter_gen (ρ : Env) (sid : Nat) (f : PredSym) (cs : List (Log × Val)) (pending tl : Log)
+    (e : Option Err) (hf : ∀ c ∈ ((cs.map (·.1)).flatten ++ tl), c.stage ≠ sid) :
+    sidArgs sid (filterT ρ sid f cs pending tl e).fullLog <+: sidArgs sid pending ++ cs.map (·.2) := by
+  induction cs generalizing pending with
+  | nil => simp [filterT, sidArgs_fresh sid tl (fresh_tail hf)]
+  | cons c rest ih =>
+    obtain ⟨lg, v⟩ := c
+    obtain ⟨h1, h2⟩ := fresh_cons hf
+    simp only [filterT]
+    cases h : ρ.pred f v with
+    | ok b =>
+      cases b with
+      | true =>
+        have := ih [] h2
+        simp only [sidArgs_nil, List.nil_append] at this
+        simp [sidArgs_fresh sid lg h1, fullLog_congr, List.prefix_append_right_inj, List.cons_prefix_cons, this]
+      | false =>
+        have := ih (pending ++ lg ++ [⟨sid, v⟩]) h2
+        simpa [sidArgs_fresh sid lg h1] using this
+    | error er =>
+      simp [sidArgs_fresh sid lg h1, List.prefix_append_right_inj, List.cons_prefix_cons]
+
+theorem log_filter_eq_gen (ρ : Env) (sid : Nat) (f : PredSym) (cs : List (Log × Val)) (pending tl : Log)
+    (e : Option Err) (hf : ∀ c ∈ ((cs.map (·.1)).flatten ++ tl), c.stage ≠ sid)
+    (he : (filterT ρ sid f cs pending tl e).err = none) :
+    sidArgs sid (filterT ρ sid f cs pending tl e).fullLog = sidArgs sid pending ++ cs.map (·.2) := by
+  induction cs generalizing pending with
+  | nil => simp [filterT, sidArgs_fresh sid tl (fresh_tail hf)]
+  | cons c rest ih =>
+    obtain ⟨lg, v⟩ := c
+    obtain ⟨h1, h2⟩ := fresh_cons hf
+    simp only [filterT] at he ⊢
+    cases h : ρ.pred f v with
+    | ok b =>
+      rw [h] at he
+      cases b with
+      | true =>
+        have := ih [] h2 he
+        simp only [sidArgs_nil, List.nil_append] at this
+        simp [sidArgs_fresh sid lg h1, fullLog_congr, this]
+      | false =>
+        have := ih (pending ++ lg ++ [⟨sid, v⟩]) h2 he
+        simpa [sidArgs_fresh sid lg h1] using this
+    | error er => rw [h] at he; simp at he
+
+theorem filter_accepted_gen (ρ : Env) (sid : Nat) (f : PredSym) (cs : List (Log × Val)) (pending tl : Log)
+    (e : Option Err) (hf : ∀ c ∈ ((cs.map (·.1)).flatten ++ tl), c.stage ≠ sid)
+    (hp : ∀ v ∈ sidArgs sid pending, accepted ρ f v = false) (k : Nat) :
+    (sidArgs sid ((filterT ρ sid f cs pending tl e).logAfter k)).filter (accepted ρ f) =
+      ((filterT ρ sid f cs pending tl e).chunks.take k).map (·.2) := by
+  induction cs generalizing pending k with
+  | nil => simp [filterT]
+  | cons c rest ih =>
+    obtain ⟨lg, v⟩ := c
+    obtain ⟨h1, h2⟩ := fresh_cons hf
+    simp only [filterT]
+    cases h : ρ.pred f v with
+    | ok b =>
+      cases b with
+      | true =>
+        cases k with
+        | zero => simp
+        | succ k =>
+          have hv : accepted ρ f v = true := by simp [accepted, h]
+          have h0 : (sidArgs sid pending).filter (accepted ρ f) = [] := by
+            rw [List.filter_eq_nil_iff]; intro a ha; simp [hp a ha]
+          have := ih [] h2 (by simp) k
+          simp [sidArgs_fresh sid lg h1, logAfter_congr, List.filter_append, h0, hv, this]
+      | false =>
+        have hv : accepted ρ f v = false := by simp [accepted, h]
+        apply ih _ h2
+        intro a ha
+        simp only [sidArgs_append, sidArgs_fresh sid lg h1, sidArgs_self, List.append_nil, List.mem_append,
+          List.mem_singleton] at ha
+        rcases ha with ha | ha
+        · exact hp a ha
+        · rw [ha]; exact hv
+    | error er => simp
+
+theorem filter_last_gen (ρ : Env) (sid : Nat) (f : PredSym) (cs : List (Log × Val)) (pending tl : Log)
+    (e : Option Err) (hf : ∀ c ∈ ((cs.map (·.1)).flatten ++ tl), c.stage ≠ sid) (k : Nat)
+    (hk : k < (filterT ρ sid f cs pending tl e).chunks.length) :
+    (sidArgs sid ((filterT ρ sid f cs pending tl e).logAfter (k + 1))).getLast? =
+      ((filterT ρ sid f cs pending tl e).chunks[k]?).map (·.2) := by
+  induction cs generalizing pending k with
+  | nil => simp [filterT] at hk
+  | cons c rest ih =>
+    obtain ⟨lg, v⟩ := c
+    obtain ⟨h1, h2⟩ := fresh_cons hf
+    simp only [filterT] at hk ⊢
+    cases h : ρ.pred f v with
+    | ok b =>
+      rw [h] at hk
+      cases b with
+      | true =>
+        cases k with
+        | zero => simp [sidArgs_fresh sid lg h1, List.getLast?_append]
+        | succ k =>
+          simp only [List.length_cons, Nat.add_lt_add_iff_right] at hk
+          have := ih [] h2 k hk
+          have hs : ((filterT ρ sid f rest [] tl e).chunks[k]?).map (·.2) =
+              some ((filterT ρ sid f rest [] tl e).chunks[k]).2 := by
+            simp [List.getElem?_eq_getElem hk]
+          rw [hs] at this
+          simp [sidArgs_fresh sid lg h1, logAfter_congr, List.getLast?_append, List.getLast?_cons, this,
+            List.getElem?_eq_getElem hk]
+      | false => exact ih _ h2 k hk
+    | error er => rw [h] at hk; simp at hk
+
+/-! ### batch: at most one batch ahead -/
+
+theorem batch_chunk_gen (n : Nat) (dl : Bool) (cs : List (Log × Val)) (cur : List Val) (lg tl : Log)
+    (e : Option Err) (hc : cur.length < n) (k : Nat) (hm : k * n + n - cur.length ≤ cs.length) :
+    (batchT n dl cs cur lg tl e).logAfter (k + 1) =
+      lg ++ ((cs.take (k * n + n - cur.length)).map (·.1)).flatten := by
+  induction cs generalizing cur lg k with
+  | nil => simp at hm; omega
+  | cons c rest ih =>
+    obtain ⟨l, v⟩ := c
+    simp only [batchT, List.length_cons, ge_iff_le]
+    by_cases h : n ≤ cur.length + 1
+    · rw [if_pos h]
+      simp only [logAfter_cons_succ, logAfter_congr]
+      cases k with
+      | zero =>
+        have : n - cur.length = 1 := by omega
+        simp [this]
+      | succ k =>
+        have hidx : (k + 1) * n + n - cur.length = (k * n + n - ([] : List Val).length) + 1 := by
+          rw [Nat.succ_mul]; simp; omega
+        have hm' : k * n + n - ([] : List Val).length ≤ rest.length := by
+          rw [hidx] at hm; simpa using hm
+        rw [ih [] [] (by simp; omega) k hm', hidx]
+        simp
+    · rw [if_neg h]
+      have hidx : k * n + n - cur.length = (k * n + n - (v :: cur).length) + 1 := by
+        simp; omega
+      have hm' : k * n + n - (v :: cur).length ≤ rest.length := by
+        rw [hidx] at hm; simpa using hm
+      rw [ih (v :: cur) (lg ++ l) (by simp; omega) k hm', hidx]
+      simp
+
+theorem batch_chunk (n : Nat) (dl : Bool) (cs : List (Log × Val)) (tl : Log) (e : Option Err) (hn : 1 ≤ n)
+    (k : Nat) (hk : k * n ≤ cs.length) :
+    (batchT n dl cs [] [] tl e).logAfter k = ((cs.take (k * n)).map (·.1)).flatten := by
+  cases k with
+  | zero => simp
+  | succ k =>
+    have := batch_chunk_gen n dl cs [] [] tl e (by simp; omega) k (by rw [Nat.succ_mul] at hk; simpa using hk)
+    rw [this, Nat.succ_mul]; simp
+
+/-! ### local shuffle: exactly `bs - 1` inputs ahead -/
+
+theorem local_gen (bs : Nat) (cs : List (Log × Val)) (buf : List Val) (lg : Log) (choices final : List Nat)
+    (tl : Log) (e : Option Err) (hb : buf.length < bs) (k : Nat)
+    (hk : k + bs - buf.length ≤ cs.length) (hc : k + 1 ≤ choices.length)
+    (hv : ∀ c ∈ choices.take (k + 1), c < bs) :
+    (localT bs cs buf lg choices final tl e).logAfter (k + 1) =
+      lg ++ ((cs.take (k + bs - buf.length)).map (·.1)).flatten := by
+  induction cs generalizing buf lg choices k with
+  | nil => simp at hk; omega
+  | cons c rest ih =>
+    obtain ⟨l, v⟩ := c
+    by_cases h : bs ≤ buf.length + 1
+    · cases choices with
+      | nil => simp at hc
+      | cons c cs' =>
+        have hcb : c < bs := hv c (by simp)
+        have hlen : c < (buf ++ [v]).length := by simp; omega
+        simp only [localT, List.length_append, List.length_cons, List.length_nil, ge_iff_le, Nat.zero_add, if_pos h,
+          List.getElem?_eq_getElem hlen, logAfter_cons_succ, logAfter_congr]
+        cases k with
+        | zero =>
+          have : bs - buf.length = 1 := by omega
+          simp [this]
+        | succ k =>
+          have hl' : ((buf ++ [v]).eraseIdx c).length = bs - 1 := by
+            rw [List.length_eraseIdx, if_pos hlen]; simp; omega
+          have hl : ((buf ++ [v]).eraseIdx c).length < bs := by omega
+          have hidx : k + 1 + bs - buf.length = (k + bs - ((buf ++ [v]).eraseIdx c).length) + 1 := by
+            rw [hl']; omega
+          rw [ih ((buf ++ [v]).eraseIdx c) [] cs' hl k (by rw [hidx] at hk; simpa using hk)
+            (by simpa using hc) (fun x hx => hv x (by simp [List.take_succ_cons, hx])), hidx]
+          simp
+    · have hidx : k + bs - buf.length = (k + bs - (buf ++ [v]).length) + 1 := by simp; omega
+      simp only [localT, List.length_append, List.length_cons, List.length_nil, ge_iff_le, Nat.zero_add, if_neg h]
+      rw [ih (buf ++ [v]) (lg ++ l) choices (by simp; omega) k (by rw [hidx] at hk; simpa using hk) hc hv, hidx]
+      simp
+
+/-! ### index-driven iteration -/
+
+theorem slice_iter_full (ρ : Env) (p : TPipe) (sel : List Nat) :
+    (sliceT ρ p sel).chunks.map (fun c => (c.1, (Except.ok c.2 : Res Val))) =
+      (sel.take (sliceT ρ p sel).chunks.length).map (getT ρ p) := by
+  induction sel with
+  | nil => simp [sliceT]
+  | cons j rest ih =>
+    rw [sliceT]
+    cases h : getT ρ p j with
+    | mk lg r =>
+      cases r with
+      | ok v => simp [ih, h]
+      | error er => simp
+
+theorem slice_iter_chunks (ρ : Env) (p : TPipe) (sel : List Nat) :
+    (sliceT ρ p sel).chunks.map (·.1) =
+      (sel.take (sliceT ρ p sel).chunks.length).map (fun j => (getT ρ p j).1) := by
+  have := congrArg (List.map (·.1)) (slice_iter_full ρ p sel)
+  simpa [List.map_map, Function.comp_def] using this
+
+/-! ### provenance: calls only ever arise in `map` / `filter` stages -/
+
+/-- the stage identifiers that own a user function in a pipeline -/
+def stages : TPipe → List Nat
+  | .src _ => []
+  | .map sid _ p => sid :: stages p
+  | .filter sid _ p => sid :: stages p
+  | .batch _ _ p => stages p
+  | .unbatch p => stages p
+  | .concat p q => stages p ++ stages q
+  | .slice _ p => stages p
+  | .zip p q => stages p ++ stages q
+  | .localShuffle _ _ _ p => stages p
+
+section Provenance
+variable (P : Call → Prop)
+
+theorem all_cons_split {lg : Log} {v : Val} {rest : List (Log × Val)} {tl : Log}
+    (h : ∀ c ∈ ((((lg, v) :: rest).map (·.1)).flatten ++ tl), P c) :
+    (∀ c ∈ lg, P c) ∧ (∀ c ∈ ((rest.map (·.1)).flatten ++ tl), P c) := by
+  simp only [List.map_cons, List.flatten_cons, List.append_assoc, List.forall_mem_append] at h
+  exact ⟨h.1, List.forall_mem_append.2 h.2⟩
+
+theorem all_tail {cs : List (Log × Val)} {tl : Log}
+    (h : ∀ c ∈ ((cs.map (·.1)).flatten ++ tl), P c) : ∀ c ∈ tl, P c :=
+  (List.forall_mem_append.1 h).2
+
+theorem all_log_map (ρ : Env) (sid : Nat) (f : FnSym) (cs : List (Log × Val)) (tl : Log) (e : Option Err)
+    (hin : ∀ c ∈ ((cs.map (·.1)).flatten ++ tl), P c) (hs : ∀ v, P ⟨sid, v⟩) :
+    ∀ c ∈ (mapT ρ sid f cs tl e).fullLog, P c := by
+  induction cs with
+  | nil => simpa [mapT] using all_tail P hin
+  | cons c rest ih =>
+    obtain ⟨lg, v⟩ := c
+    obtain ⟨h1, h2⟩ := all_cons_split P hin
+    simp only [mapT]
+    cases h : ρ.fn f v with
+    | ok w =>
+      simp only [fullLog_cons, fullLog_congr, List.forall_mem_append, List.forall_mem_singleton]
+      exact ⟨⟨h1, hs v⟩, ih h2⟩
+    | error er =>
+      simp only [fullLog_nil, List.forall_mem_append, List.forall_mem_singleton]
+      exact ⟨h1, hs v⟩
+
+theorem all_log_filter (ρ : Env) (sid : Nat) (f : PredSym) (cs : List (Log × Val)) (pending tl : Log)
+    (e : Option Err) (hin : ∀ c ∈ ((cs.map (·.1)).flatten ++ tl), P c) (hp : ∀ c ∈ pending, P c)
+    (hs : ∀ v, P ⟨sid, v⟩) :
+    ∀ c ∈ (filterT ρ sid f cs pending tl e).fullLog, P c := by
+  induction cs generalizing pending with
+  | nil =>
+    simp only [filterT, fullLog_nil, List.forall_mem_append]
+    exact ⟨hp, all_tail P hin⟩
+  | cons c rest ih =>
+    obtain ⟨lg, v⟩ := c
+    obtain ⟨h1, h2⟩ := all_cons_split P hin
+    have hpl : ∀ c ∈ pending ++ lg ++ [⟨sid, v⟩], P c := by
+      simp only [List.forall_mem_append, List.forall_mem_singleton]
+      exact ⟨⟨hp, h1⟩, hs v⟩
+    simp only [filterT]
+    cases h : ρ.pred f v with
+    | ok b =>
+      cases b with
+      | true =>
+        simp only [fullLog_cons, fullLog_congr]
+        exact List.forall_mem_append.2 ⟨hpl, ih [] h2 (by simp)⟩
+      | false => exact ih _ h2 hpl
+    | error er => simpa only [fullLog_nil] using hpl
+
+theorem all_log_batch (n : Nat) (dl : Bool) (cs : List (Log × Val)) (cur : List Val) (lg tl : Log)
+    (e : Option Err) (hin : ∀ c ∈ ((cs.map (·.1)).flatten ++ tl), P c) (hl : ∀ c ∈ lg, P c) :
+    ∀ c ∈ (batchT n dl cs cur lg tl e).fullLog, P c := by
+  induction cs generalizing cur lg with
+  | nil =>
+    have h0 : ∀ c ∈ lg ++ tl, P c := List.forall_mem_append.2 ⟨hl, all_tail P hin⟩
+    simp only [batchT]
+    cases e with
+    | some er => simpa only [fullLog_nil] using h0
+    | none =>
+      simp only
+      split
+      · simpa [TStream.fullLog] using h0
+      · simpa only [fullLog_nil] using h0
+  | cons c rest ih =>
+    obtain ⟨l, v⟩ := c
+    obtain ⟨h1, h2⟩ := all_cons_split P hin
+    have hll : ∀ c ∈ lg ++ l, P c := List.forall_mem_append.2 ⟨hl, h1⟩
+    simp only [batchT]
+    split
+    · simp only [fullLog_cons, fullLog_congr]
+      exact List.forall_mem_append.2 ⟨hll, ih [] [] h2 (by simp)⟩
+    · exact ih _ _ h2 hll
+
+theorem all_log_unbatch (cs : List (Log × Val)) (pending tl : Log) (e : Option Err)
+    (hin : ∀ c ∈ ((cs.map (·.1)).flatten ++ tl), P c) (hp : ∀ c ∈ pending, P c) :
+    ∀ c ∈ (unbatchT cs pending tl e).fullLog, P c := by
+  induction cs generalizing pending with
+  | nil =>
+    simp only [unbatchT, fullLog_nil]
+    exact List.forall_mem_append.2 ⟨hp, all_tail P hin⟩
+  | cons c rest ih =>
+    obtain ⟨lg, v⟩ := c
+    obtain ⟨h1, h2⟩ := all_cons_split P hin
+    have hpl : ∀ c ∈ pending ++ lg, P c := List.forall_mem_append.2 ⟨hp, h1⟩
+    have hcons : ∀ (x : Val) (xs : List Val), ∀ c ∈ (TStream.mk ((pending ++ lg, x) :: xs.map (fun y => (([] : Log), y)) ++
+        (unbatchT rest [] tl e).chunks) (unbatchT rest [] tl e).tail (unbatchT rest [] tl e).err).fullLog, P c := by
+      intro x xs
+      have h0 := ih [] h2 (by simp)
+      simp only [TStream.fullLog] at h0 ⊢
+      simp only [List.cons_append, List.map_cons, List.map_append, List.flatten_cons,
+        List.flatten_append, flatten_map_fst_nil, List.nil_append, List.append_assoc, List.forall_mem_append]
+      exact ⟨hp, h1, List.forall_mem_append.1 h0⟩
+    cases v with
+    | list xs =>
+      cases xs with
+      | nil => simpa only [unbatchT] using ih _ h2 hpl
+      | cons x xs => simpa only [unbatchT] using hcons x xs
+    | tup xs =>
+      cases xs with
+      | nil => simpa only [unbatchT] using ih _ h2 hpl
+      | cons x xs => simpa only [unbatchT] using hcons x xs
+    | none => simpa only [unbatchT, fullLog_nil] using hpl
+    | int i => simpa only [unbatchT, fullLog_nil] using hpl
+    | str s => simpa only [unbatchT, fullLog_nil] using hpl
+    | dict kvs => simpa only [unbatchT, fullLog_nil] using hpl
+
+theorem all_log_append (a b : TStream) (ha : ∀ c ∈ a.fullLog, P c) (hb : ∀ c ∈ b.fullLog, P c) :
+    ∀ c ∈ (appendT a b).fullLog, P c := by
+  unfold appendT
+  cases hae : a.err with
+  | some e => simpa using ha
+  | none =>
+    simp only
+    cases hbc : b.chunks with
+    | nil =>
+      simp only [TStream.fullLog, hbc, List.map_nil, List.flatten_nil, List.nil_append] at ha hb ⊢
+      rw [← List.append_assoc]
+      exact List.forall_mem_append.2 ⟨ha, hb⟩
+    | cons c rest =>
+      obtain ⟨lg, v⟩ := c
+      simp only [TStream.fullLog, hbc, List.map_cons, List.flatten_cons, List.map_append, List.flatten_append,
+        List.append_assoc, List.forall_mem_append] at ha hb ⊢
+      exact ⟨ha.1, ha.2, hb.1, hb.2.1, hb.2.2⟩
+
+theorem all_log_zip (ca : List (Log × Val)) (tla : Log) (ea : Option Err) (cb : List (Log × Val)) (tlb : Log)
+    (eb : Option Err) (ha : ∀ c ∈ ((ca.map (·.1)).flatten ++ tla), P c)
+    (hb : ∀ c ∈ ((cb.map (·.1)).flatten ++ tlb), P c) :
+    ∀ c ∈ (zipT ca tla ea cb tlb eb).fullLog, P c := by
+  induction ca generalizing cb with
+  | nil => simpa [zipT] using all_tail P ha
+  | cons a ra ih =>
+    obtain ⟨la, va⟩ := a
+    obtain ⟨h1, h2⟩ := all_cons_split P ha
+    cases cb with
+    | nil =>
+      simp only [zipT, fullLog_nil]
+      exact List.forall_mem_append.2 ⟨h1, all_tail P hb⟩
+    | cons b rb =>
+      obtain ⟨lb, vb⟩ := b
+      obtain ⟨h3, h4⟩ := all_cons_split P hb
+      simp only [zipT, fullLog_cons, fullLog_congr]
+      exact List.forall_mem_append.2 ⟨List.forall_mem_append.2 ⟨h1, h3⟩, ih rb h2 h4⟩
+
+theorem all_log_local (bs : Nat) (cs : List (Log × Val)) (buf : List Val) (lg : Log) (choices final : List Nat)
+    (tl : Log) (e : Option Err) (hin : ∀ c ∈ ((cs.map (·.1)).flatten ++ tl), P c) (hl : ∀ c ∈ lg, P c) :
+    ∀ c ∈ (localT bs cs buf lg choices final tl e).fullLog, P c := by
+  induction cs generalizing buf lg choices with
+  | nil =>
+    have h0 : ∀ c ∈ lg ++ tl, P c := List.forall_mem_append.2 ⟨hl, all_tail P hin⟩
+    simp only [localT]
+    cases e with
+    | some er => simpa only [fullLog_nil] using h0
+    | none =>
+      simp only
+      split
+      · simpa only [fullLog_nil] using h0
+      · intro c hc
+        apply h0 c
+        simpa only [TStream.fullLog, List.map_cons, List.flatten_cons, flatten_map_fst_nil, List.append_nil] using hc
+  | cons c rest ih =>
+    obtain ⟨l, v⟩ := c
+    obtain ⟨h1, h2⟩ := all_cons_split P hin
+    have hll : ∀ c ∈ lg ++ l, P c := List.forall_mem_append.2 ⟨hl, h1⟩
+    simp only [localT]
+    split
+    · split
+      · split
+        · simp only [fullLog_cons, fullLog_congr]
+          exact List.forall_mem_append.2 ⟨hll, ih _ [] _ h2 (by simp)⟩
+        · simpa only [fullLog_nil] using hll
+      · simpa only [fullLog_nil] using hll
+    · exact ih _ _ _ h2 hll
+
+end Provenance
+
+theorem all_getT_go (ρ : Env) (P : Call → Prop) (n : Nat) (p : TPipe) (i : Nat)
+    (hg : ∀ j, ∀ c ∈ (getT ρ p j).1, P c) (fuel t : Nat) (lg : Log) (acc : List Val) (hl : ∀ c ∈ lg, P c) :
+    ∀ c ∈ (getT.go ρ n p i t fuel lg acc).1, P c := by
+  induction fuel generalizing t lg acc with
+  | zero => rw [getT.go]; exact hl
+  | succ fuel ih =>
+    rw [getT.go]
+    have hj := hg (i * n + t)
+    rcases h : getT ρ p (i * n + t) with ⟨l, r⟩
+    rw [h] at hj
+    have hll : ∀ c ∈ lg ++ l, P c := List.forall_mem_append.2 ⟨hl, hj⟩
+    cases r with
+    | ok v => exact ih _ _ _ hll
+    | error er =>
+      simp only
+      split
+      · exact ih _ _ _ hll
+      · exact hll
+
+theorem all_sliceT (ρ : Env) (P : Call → Prop) (p : TPipe) (hg : ∀ j, ∀ c ∈ (getT ρ p j).1, P c)
+    (sel : List Nat) : ∀ c ∈ (sliceT ρ p sel).fullLog, P c := by
+  induction sel with
+  | nil => simp [sliceT]
+  | cons j rest ih =>
+    rw [sliceT]
+    have hj := hg j
+    rcases h : getT ρ p j with ⟨l, r⟩
+    rw [h] at hj
+    cases r with
+    | ok v =>
+      simp only [fullLog_cons, fullLog_congr]
+      exact List.forall_mem_append.2 ⟨hj, ih⟩
+    | error er => simpa only [fullLog_nil] using hj
+
+/-- every call of an iteration and of an index access belongs to a `map`/`filter` stage of the pipeline -/
+theorem provenance (ρ : Env) (p : TPipe) :
+    (∀ c ∈ (iterT ρ p).fullLog, c.stage ∈ stages p) ∧ (∀ i, ∀ c ∈ (getT ρ p i).1, c.stage ∈ stages p) := by
+  induction p with
+  | src xs =>
+    constructor
+    · rw [iterT]
+      simp only [TStream.fullLog, flatten_map_fst_nil]
+      simp
+    · intro i; rw [getT]; simp
+  | map sid f p ih =>
+    constructor
+    · rw [iterT]
+      exact all_log_map _ ρ sid f _ _ _ (fun c hc => by simp [stages, ih.1 c hc]) (fun v => by simp [stages])
+    · intro i
+      rw [getT]
+      have := ih.2 i
+      rcases h : getT ρ p i with ⟨lg, r⟩
+      rw [h] at this
+      cases r with
+      | ok v =>
+        simp only [List.forall_mem_append, List.forall_mem_singleton]
+        exact ⟨fun c hc => by simp [stages, this c hc], by simp [stages]⟩
+      | error er => exact fun c hc => by simp [stages, this c hc]
+  | filter sid f p ih =>
+    constructor
+    · rw [iterT]
+      exact all_log_filter _ ρ sid f _ _ _ _ (fun c hc => by simp [stages, ih.1 c hc]) (by simp)
+        (fun v => by simp [stages])
+    · intro i; rw [getT]; simp
+  | batch n dl p ih =>
+    constructor
+    · rw [iterT]
+      exact all_log_batch _ n dl _ _ _ _ _ ih.1 (by simp)
+    · intro i
+      rw [getT]
+      exact all_getT_go ρ _ n p i ih.2 _ _ _ _ (by simp)
+  | unbatch p ih =>
+    constructor
+    · rw [iterT]
+      exact all_log_unbatch _ _ _ _ _ ih.1 (by simp)
+    · intro i; rw [getT]; simp
+  | concat p q ihp ihq =>
+    constructor
+    · rw [iterT]
+      exact all_log_append _ _ _ (fun c hc => by simp [stages, ihp.1 c hc]) (fun c hc => by simp [stages, ihq.1 c hc])
+    · intro i
+      rw [getT]
+      cases lenT p with
+      | none => simp
+      | some n =>
+        simp only
+        split
+        · exact fun c hc => by simp [stages, ihp.2 _ c hc]
+        · exact fun c hc => by simp [stages, ihq.2 _ c hc]
+  | slice sel p ih =>
+    constructor
+    · rw [iterT]
+      exact all_sliceT ρ _ p ih.2 sel
+    · intro i
+      rw [getT]
+      cases sel[i]? with
+      | none => simp
+      | some j => exact ih.2 j
+  | zip p q ihp ihq =>
+    constructor
+    · rw [iterT]
+      exact all_log_zip _ _ _ _ _ _ _ (fun c hc => by simp [stages, ihp.1 c hc])
+        (fun c hc => by simp [stages, ihq.1 c hc])
+    · intro i
+      rw [getT]
+      have hp := ihp.2 i
+      have hq := ihq.2 i
+      rcases h : getT ρ p i with ⟨la, ra⟩
+      rw [h] at hp
+      cases ra with
+      | error er => exact fun c hc => by simp [stages, hp c hc]
+      | ok a =>
+        simp only
+        rcases h' : getT ρ q i with ⟨lb, rb⟩
+        rw [h'] at hq
+        have : ∀ c ∈ la ++ lb, c.stage ∈ stages (.zip p q) :=
+          List.forall_mem_append.2 ⟨fun c hc => by simp [stages, hp c hc], fun c hc => by simp [stages, hq c hc]⟩
+        cases rb <;> exact this
+  | localShuffle bs choices final p ih =>
+    constructor
+    · rw [iterT]
+      exact all_log_local _ bs _ _ _ _ _ _ _ ih.1 (by simp)
+    · intro i; rw [getT]; simp
 
 end LazyDs.Trace
